@@ -146,7 +146,12 @@ func (l *link) deliver(k *Kernel) {
 		chunk := l.pending[:n]
 		l.pending = l.pending[n:]
 		l.delivered += n
-		k.Event("deliver", "conn=%d dir=%s n=%d h=%s", l.conn.id, l.dir, n, shortHash(chunk))
+		h := shortHash(chunk)
+		if l.dir == "resp" && l.conn.status == 400 {
+			// multi-violation bodies list violations in Go map order: not part of the witness
+			h = "v400"
+		}
+		k.Event("deliver", "conn=%d dir=%s n=%d h=%s", l.conn.id, l.dir, n, h)
 		l.pipe.push(chunk)
 	}
 	if len(l.delays) > 0 {
@@ -231,6 +236,8 @@ type Conn struct {
 	status     int
 	srvCancel  context.CancelFunc
 	faultFired []string
+	sendClock  vclock
+	respClock  vclock
 
 	// server-side observations
 	ReqParsed     bool
